@@ -483,6 +483,24 @@ def scenario(draw, planners=("RRT", "RRTConnect", "RRTStar"), with_obstacles=Tru
                     obst.append({"Box": {"dims": dims}})
             else:
                 sballs.append([draw(state_in(cfg)), draw(fl(0.02, 0.2)) * ext])
+        # a thin slab across one coordinate of an RV component, between start and target, with
+        # a door in another coordinate: what gets through depends on the motion-check resolution
+        rvs = [i for i, c in enumerate(cfg["comps"]) if "RV" in c]
+        if rvs and draw(st.integers(0, 9)) < 3:
+            i = draw(st.sampled_from(rvs))
+            bs = cfg["comps"][i]["RV"]["bounds"]
+            k = draw(st.integers(0, len(bs) - 1))
+            lo, hi = bs[k]
+            a, b = start[offs[i] + k], targets[0][offs[i] + k]
+            mid = a + (b - a) * draw(fl(0.3, 0.7))
+            half = draw(fl(0.004, 0.06)) * (hi - lo)
+            dims = [[offs[i] + k, mid - half, mid + half]]
+            if len(bs) > 1 and draw(st.booleans()):
+                j = (k + 1) % len(bs)
+                jl, jh = bs[j]
+                cut = jl + draw(fl(0.2, 0.8)) * (jh - jl)
+                dims.append([offs[i] + j, jl, cut] if draw(st.booleans()) else [offs[i] + j, cut, jh])
+            obst.append({"Box": {"dims": dims}})
     pl = draw(st.sampled_from(list(planners)))
     step = draw(fl(0.08, 0.6)) * ext
     sc = {
@@ -668,6 +686,13 @@ def c19_check_scenario(sc, stats):
         stats.discard("timeout on one side (py=%s, rust=%s)" % (tag, rtag))
         return
     stats.label("outcome:" + tag)
+    fr = [f for f in sc["space"]["fracs"] if f is not None]
+    if any(f > 1.0 for f in fr):
+        stats.label("resolution-fraction-above-1")
+    if any(f <= 0.0 for f in fr):
+        stats.label("resolution-fraction-non-positive")
+    if any(len(o["Box"]["dims"]) <= 2 for o in sc["world"]["obst"]):
+        stats.label("world-with-slab")
     has_obst = bool(sc["world"]["obst"] or sc["world"]["sballs"])
     nontrivial = tag == "Ok" and len(states) >= 3 and has_obst
     if sc.get("frac_after") is not None:
@@ -907,10 +932,19 @@ def fault_plan(draw, sc):
     kind = draw(st.sampled_from(kinds))
     if draw(st.booleans()):
         return {"where": where, "kind": kind, "at": draw(st.integers(0, 39))}
-    # region: a ball (space metric) around a point between start and a target-ish state
+    # region: a ball (space metric) around a random state, or around a state the planner is
+    # certain to ask about more than once (a goal target: goal samples, goal-tree roots; the
+    # start), from a pin-point (1e-3 of the extent) to a third of the space
     cfg = sc["space"]
-    c = draw(state_in(cfg))
-    return {"where": where, "kind": kind, "region": [c, draw(fl(0.05, 0.35)) * approx_extent(cfg)]}
+    which = draw(st.sampled_from(["any", "any", "target", "target", "start"]))
+    if which == "target":
+        c = draw(st.sampled_from(sc["targets"]))
+    elif which == "start":
+        c = sc["start"]
+    else:
+        c = draw(state_in(cfg))
+    r = draw(st.one_of(fl(0.05, 0.35), st.sampled_from([1e-3, 1e-2, 0.03])))
+    return {"where": where, "kind": kind, "region": [list(c), r * approx_extent(cfg)], "centre": which}
 
 
 @st.composite
@@ -929,6 +963,8 @@ def c20_check(sc, stats):
     reached = len(chkA.failed_states) + len(goalA.failed_states)
     stats.label("planner:" + sc["planner"])
     stats.label("fault:" + fault["where"] + ":" + fault["kind"] + (":kth-call" if "at" in fault else ":region"))
+    if "region" in fault:
+        stats.label("fault-region-centre:" + fault.get("centre", "any"))
     if reached:
         stats.label("fault-reached")
     # no path through a state on which the callback failed / inside the fault region
